@@ -54,14 +54,16 @@ var alsoRuns = map[string][]borrow{
 	"C04": {{prop: "C01", rules: []string{"R1", "R2", "R3", "R4"}}, {prop: "C08"}, {prop: "C01", rules: []string{"R4"}}, {prop: "C18", rules: []string{"F1"}, keyHas: "default id"}, {prop: "C02", rules: []string{"N4"}}},
 	// … and a POST is acknowledged without being proposed only where the replicated marker shows it was applied (C10.U1c)
 	"C05": {{prop: "C02"}, {prop: "C03"}, {prop: "C09"}, {prop: "C18"}, {prop: "C04"}, {prop: "C08"}, {prop: "C14", rules: []string{"M6"}},
-		{prop: "C10", rules: []string{"U1"}, keyHas: "success without proposing"}},
+		{prop: "C10", rules: []string{"U1"}, keyHas: "success without proposing"},
+		// … and a node that has not applied the session yet says "not yet seen" (retry), never "no such session" (give up)
+		{prop: "C17", rules: []string{"Y2"}}},
 	// the state invariants that justify look-ups in C06.G3 are preserved iff C14's pairing rules hold
 	// … and sessions ended by somebody else leave the session table (C17.Y4), else their next line finds no nickname entry
 	"C06": {{prop: "C14"}, {prop: "C17", rules: []string{"Y4"}}},
 	// the marked entry lands in a store that honours its contract (C09, F2/F3); the duplicate-detection marker advances for a
 	// skipped entry (C10.U3); every entry, marked or not, is re-filed before it is applied or skipped and is folded by
 	// compaction, and restore rebuilds from it (C02.N1/N3/N4/N5); the marker and everything else survives a snapshot (C03)
-	"C07": {{prop: "C09"}, {prop: "C18", rules: []string{"F1", "F2", "F3"}}, {prop: "C10", rules: []string{"U3"}}, {prop: "C02", rules: []string{"N1", "N3", "N4", "N5", "N7", "N8"}}, {prop: "C03"}},
+	"C07": {{prop: "C09"}, {prop: "C18", rules: []string{"F1", "F2", "F3"}}, {prop: "C10", rules: []string{"U3"}}, {prop: "C10", rules: []string{"U2"}, keyHas: "message of death"}, {prop: "C02", rules: []string{"N1", "N3", "N4", "N5", "N7", "N8"}}, {prop: "C03"}},
 	// "under every interleaving": the lock discipline of the output stream (C20 restricted to package outputstream)
 	// … and "returns exactly what was added": the batch codec is symmetric (C18.F4)
 	// … and readers always call the current stream (C04.P7)
@@ -77,21 +79,23 @@ var alsoRuns = map[string][]borrow{
 	// instances must not share mutable package-level state: a configuration is decoded into a fresh value (C16.V3)
 	// … and an instance that raft created from a snapshot and then fed the remaining entries is one of the instances the
 	// property quantifies over: whatever influences later output must be in the snapshot and come back unchanged (C03)
-	"C01": {{prop: "C16", rules: []string{"V3"}, keyHas: "fresh configuration value"}, {prop: "C03"}},
+	// … and the loops that take the first match in a map of sessions are order-independent only because nicknames are
+	// unique: only free nicknames enter the index (C14.M4)
+	"C01": {{prop: "C16", rules: []string{"V3"}, keyHas: "fresh configuration value"}, {prop: "C03"}, {prop: "C14", rules: []string{"M4"}}},
 	// ended sessions must leave the session table, otherwise their secret keeps working
 	// … and the secret survives a snapshot unchanged (C03 obligations about the auth field)
-	"C11": {{prop: "C13", rules: []string{"E6"}, keyHas: "ending another session"}, {prop: "C17", rules: []string{"Y1", "Y3", "Y4"}}, {prop: "C03", keyHasAny: []string{".auth", ".Auth"}}},
+	"C11": {{prop: "C13", rules: []string{"E6"}, keyHas: "ending another session"}, {prop: "C17", rules: []string{"Y1", "Y2", "Y3", "Y4"}}, {prop: "C03", keyHasAny: []string{".auth", ".Auth"}}},
 	// recipient sets are computed from the membership relations whose pairing C14 checks
 	// … and from the nickname index, which a restore must rebuild for every session with a nickname (C03.K4)
 	// … and nothing but the closing line reaches a session after it ended (C17.Y5)
 	// … and no client can inject a second line with a prefix of its choosing (C15.W2)
 	// … and the identity and membership data survive a snapshot (C03 obligations about those fields)
-	"C12": {{prop: "C13", rules: []string{"E6"}, keyHas: "ending another session"}, {prop: "C14"}, {prop: "C03", rules: []string{"K4"}}, {prop: "C17", rules: []string{"Y5"}}, {prop: "C15", rules: []string{"W2"}},
+	"C12": {{prop: "C13", rules: []string{"E6"}, keyHas: "ending another session"}, {prop: "C17", rules: []string{"Y4"}}, {prop: "C14"}, {prop: "C03", rules: []string{"K4"}}, {prop: "C17", rules: []string{"Y5"}}, {prop: "C15", rules: []string{"W2"}},
 		{prop: "C03", keyHasAny: []string{"Session.Nick", "Session.Username", "Session.Realname", "ircPrefix", "IrcPrefix", "Session.Channels", "channel.nicks", "Channel.Nicks", "Session.modes", "Session.AwayMsg", "identifier literal"}}},
 	// operator status lives in per-member arrays: a restore that shares one array between members hands out operator status
 	// … and privileges must survive a snapshot: operator flag, channel settings, member status, invitations, services links
 	"C13": {{prop: "C14", rules: []string{"M1"}, keyHas: "fresh status array"},
-		{prop: "C03", keyHasAny: []string{".Operator", ".Server", ".modes", ".Modes", ".bans", ".Bans", ".key", ".Key", ".invitedTo", ".InvitedTo", "channel.nicks", ".Nicks", ".Pass", "SolvedCaptcha"}},
+		{prop: "C03", keyHasAny: []string{".Operator", ".Server", ".modes", ".Modes", ".bans", ".Bans", ".key", ".Key", ".invitedTo", ".InvitedTo", "channel.nicks", ".Nicks", ".Pass", "SolvedCaptcha", "BanPattern", "banPattern"}},
 		{prop: "C14", rules: []string{"M6"}}, {prop: "C14", rules: []string{"M1"}, keyHas: "invitations"}},
 	// ended sessions leave every relation and the session table (C17.Y4)
 	// … and a restore rebuilds the derived indexes consistently (C03.K4/K4b)
@@ -101,7 +105,8 @@ var alsoRuns = map[string][]borrow{
 	// … and the ban table must be a usable map after every way of installing a configuration (C06.G5), else the next
 	// GLINE kills the replica that restored and the others keep the ban
 	// … and a Config entry keeps its revision in every log encoding (C18.F1/F2 about Revision)
-	"C16": {{prop: "C03", keyHas: "onfig"}, {prop: "C06", rules: []string{"G5"}, keyHas: "Banned"}, {prop: "C18", rules: []string{"F1", "F2"}, keyHas: "Revision"}},
+	// … and a GLINE that is refused (481) changes nothing: the ban table is written only behind the operator test (C13.E6)
+	"C16": {{prop: "C13", rules: []string{"E6"}, keyHas: "Config.Banned"}, {prop: "C03", keyHas: "onfig"}, {prop: "C06", rules: []string{"G5"}, keyHas: "Banned"}, {prop: "C18", rules: []string{"F1", "F2"}, keyHas: "Revision"}},
 	// a relayed line starts with a well-formed prefix: the cached prefix is refreshed whenever the nickname changes (C12.T4)
 	"C15": {{prop: "C12", rules: []string{"T4"}}, {prop: "C03", keyHasAny: []string{"ircPrefix", "IrcPrefix"}}},
 	// sessions (and the expiration they are measured against) survive a snapshot: every session is restored (C03.K7), ids keep
